@@ -325,6 +325,25 @@ Theorem C03_lookup_winner_media : forall ao regs cls rq,
 Proof. exact lookup_winner_media. Qed.
 Print Assumptions C03_lookup_winner_media.
 
+(* the premise accept_wf is true of registrations as add_view makes them (accept= is handed to make as the accept
+   predicate) when accept is a registered predicate name and the other keyword arguments carry no accept key; the
+   accept-aware lookup theorem for such registrations needs no premise about the predicate lists *)
+Theorem C03_made_by_accept_wf : forall names v,
+  In nm_accept names -> made_by_plain names v -> accept_wf v.
+Proof. exact made_by_accept_wf. Qed.
+Print Assumptions C03_made_by_accept_wf.
+
+Theorem C03_lookup_winner_media_made : forall ao names regs cls rq,
+  In nm_accept names -> Forall (made_by_plain names) regs ->
+  NoDup (map key regs) -> NoDup (q_req_sro rq) -> NoDup (q_ctx_sro rq) ->
+  match call_view (register_all ao regs) cls rq with
+  | Ran t => exists x, In x regs /\ r_tag x = t /\ candidate cls rq x = true
+                       /\ forall w, In w regs -> candidate cls rq w = true -> strictly_before rq w x = false
+  | _ => forall w, In w regs -> candidate cls rq w = false
+  end.
+Proof. exact lookup_winner_media_made. Qed.
+Print Assumptions C03_lookup_winner_media_made.
+
 (* ==== the program regenerated from the source on this run (Gen/Facts_C03_gen.v, by harness/c03/translate.py)
    equals the reference model, and the property theorems hold of the REGENERATED lookup *)
 Require Import Verif.Gen.Facts_C03_gen Verif.Proofs.C03_gen.
@@ -354,6 +373,57 @@ Theorem C03_generated_make_is_model : forall names kw,
   NoDup names -> gen_make names kw = option_map made_triple (make names kw).
 Proof. exact gen_make_is_model. Qed.
 Print Assumptions C03_generated_make_is_model.
+
+(* text() / phash() of every stock predicate class, of CustomPredicate and of Notted, regenerated from the source:
+   the text that identifies a registration inside its slot (and that the digest is taken of) is the model's *)
+Theorem C03_generated_phash_is_model : forall p, gen_pred_phash p = pred_phash p.
+Proof. exact gen_pred_phash_is_model. Qed.
+Print Assumptions C03_generated_phash_is_model.
+
+(* two containment= values are one registration key exactly when their str() agree (regenerated text) *)
+Theorem C03_gen_containment_phash_iff : forall i j s t,
+  gen_pred_phash (PContainment i s) = gen_pred_phash (PContainment j t) <-> s = t.
+Proof. exact gen_containment_phash_iff. Qed.
+Print Assumptions C03_gen_containment_phash_iff.
+
+(* not_(P) and P have different keys when P has a real phash (regenerated Notted.phash / _notted_text) *)
+Theorem C03_gen_notted_phash_differs : forall p,
+  pred_phash p <> [] -> gen_pred_phash (PNot p) <> gen_pred_phash p.
+Proof. exact gen_notted_phash_differs. Qed.
+Print Assumptions C03_gen_notted_phash_differs.
+
+(* the constructors that normalise their value, regenerated from the source (RequestMethodPredicate.__init__: sorted
+   tuple, GET implies HEAD; RequestParamPredicate.__init__: 'k', 'k=v', leading '=' parsing with str.strip) are the
+   model's; make calls them through gen_factory *)
+Theorem C03_generated_factory_is_model : forall name v, gen_factory name v = factory name v.
+Proof. exact gen_factory_is_model. Qed.
+Print Assumptions C03_generated_factory_is_model.
+
+Theorem C03_generated_request_param_init : forall l,
+  gen_mk_request_param l = Some (PParam (map param_req (sorted_texts l))).
+Proof. exact gen_mk_request_param_spec. Qed.
+Print Assumptions C03_generated_request_param_init.
+
+Theorem C03_generated_header_init : forall l,
+  gen_mk_header l = Some (PHeader (map header_req (sorted_texts l))).
+Proof. exact gen_mk_header_spec. Qed.
+Print Assumptions C03_generated_header_init.
+
+Theorem C03_generated_match_param_init : forall v l,
+  as_tuple v = Some l -> gen_mk_match_param l = mk_match_param v.
+Proof. exact gen_mk_match_param_is_model. Qed.
+Print Assumptions C03_generated_match_param_init.
+
+Theorem C03_generated_physical_path_init : forall v, gen_mk_physical_path v = mk_phys v.
+Proof. exact gen_mk_physical_path_is_model. Qed.
+Print Assumptions C03_generated_physical_path_init.
+
+Theorem C03_generated_request_method_init : forall l,
+  gen_mk_request_method l =
+  Some (PMethod (if mem_text rm_get (sorted_texts l) && negb (mem_text rm_head (sorted_texts l))
+                 then sorted_texts (sorted_texts l ++ [rm_head]) else sorted_texts l)).
+Proof. exact gen_mk_request_method_spec. Qed.
+Print Assumptions C03_generated_request_method_init.
 
 Theorem C03_generated_predicates_are_model : forall rq p, gen_eval_pred rq p = eval_pred rq p.
 Proof. exact gen_eval_pred_is_model. Qed.
